@@ -85,7 +85,8 @@ def verify_function(qual, timeout_ms=60000, canary=True, shard=None):
             continue
         # iterative deepening: most obligations need 3 rounds; only a refutation at the
         # contract's full fuel counts as `failed`
-        for fuel in range(3, max(3, ct.fuel) + 1):
+        top = ct.fuel_post if (getattr(ct, "fuel_post", None) and ob.kind.startswith("post")) else ct.fuel
+        for fuel in range(3, max(3, top) + 1):
             st, info = L.check_valid(ob.hyps, ob.goal, timeout_ms=timeout_ms, fuel=fuel, extra_axioms=ct.axioms, exclude=getattr(ct, "exclude", ()))
             if st == "proved":
                 break
